@@ -78,7 +78,7 @@ func ruleIndirectAppendOnly(c *Ctx) {
 	// R3.2: the index slot is revisited only after a write (the data) happened
 	const r2 = "R3.2"
 	var primOff types.Object
-	walkAll(s.Body, func(n ast.Node) bool {
+	s.walk(func(n ast.Node) bool {
 		if as, ok := n.(*ast.AssignStmt); ok && len(as.Rhs) == 1 && len(as.Lhs) == 1 {
 			if call, ok := unparen(as.Rhs[0]).(*ast.CallExpr); ok && CalleeName(s.Info, call) == "(executor/wal.OffsetIndexBuffer).Offset" {
 				primOff = identObj(s.Info, as.Lhs[0])
@@ -86,6 +86,7 @@ func ruleIndirectAppendOnly(c *Ctx) {
 		}
 		return true
 	})
+
 	if primOff == nil {
 		c.Undecided(r2, s.Name, "index-offset-variable", "no variable bound to buffer.Offset() found")
 		return
@@ -171,6 +172,7 @@ func (p *Prog) panicSites() map[string][]panicSite {
 			}
 			return true
 		})
+
 	}
 	return out
 }
@@ -291,14 +293,14 @@ func ruleUntrustedLengths(c *Ctx) {
 		}
 		// variables assigned from a decode primitive
 		vars := map[types.Object]ast.Node{}
-		walkAll(s.Body, func(n ast.Node) bool {
+		s.walk(func(n ast.Node) bool {
 			as, ok := n.(*ast.AssignStmt)
 			if !ok {
 				return true
 			}
 			for i, rhs := range as.Rhs {
 				e := unparen(rhs)
-				// allow int(...) conversions around the decode
+
 				for {
 					cx, ok := e.(*ast.CallExpr)
 					if ok && len(cx.Args) == 1 {
@@ -320,6 +322,7 @@ func ruleUntrustedLengths(c *Ctx) {
 			}
 			return true
 		})
+
 		for o, def := range vars {
 			// uses that size or bound memory
 			use := func(sub, top ast.Node) bool {
@@ -475,7 +478,7 @@ func ruleReplayLoopProgress(c *Ctx) {
 	// fullRead: stops on EOF and on short reads
 	if fr := c.S(rule, "executor.fullRead"); fr != nil {
 		hasEOF, hasShort := false, false
-		walkAll(fr.Body, func(n ast.Node) bool {
+		fr.walk(func(n ast.Node) bool {
 			if call, ok := n.(*ast.CallExpr); ok {
 				switch CalleeName(fr.Info, call) {
 				case "errors.Is":
@@ -496,6 +499,7 @@ func ruleReplayLoopProgress(c *Ctx) {
 			}
 			return true
 		})
+
 		c.Check(hasEOF && hasShort, rule, fr.Name, "stop-classes", c.P.Pos(fr.Body.Pos()), fmt.Sprintf("fullRead classifies io.EOF (%v) and wal.ShortReadError (%v) as end of scan", hasEOF, hasShort))
 	}
 }
